@@ -281,7 +281,7 @@ pub fn size_class(n: usize) -> &'static str {
         0 => "n=0",
         1..=8 => "n=1..8",
         9..=40 => "n=9..40",
-        41..=256 => "n=wide(65..140)",
+        41..=256 => "n=wide(41..140)",
         _ => "n=huge(257..320)",
     }
 }
@@ -297,7 +297,12 @@ pub fn decode_spec(t: &mut Tape, p: &Profile) -> GraphSpec {
     let n = if huge {
         257 + t.below(64)
     } else if wide {
-        65 + t.below(76)
+        // 41..=140, one in five exactly at a power-of-two boundary
+        if t.chance(1, 5) {
+            [63usize, 64, 65, 127, 128, 129][t.below(6)]
+        } else {
+            41 + t.below(100)
+        }
     } else if medium {
         9 + t.below(p.max_n.saturating_sub(8).max(1))
     } else {
